@@ -1380,9 +1380,21 @@ func (fv *FuncVerifier) runLoopR(st *State, env *Env, lc *loopCtx, label string,
 	exit := head.Clone()
 	exit.Assume(Not(g))
 	outs = append(outs, Outcome{st: exit, kind: okNormal})
+	// this loop has run to its normal exit (ghost done<k>, see `loop j ensures`)
+	exit.ghost[fmt.Sprintf("done%d", lc.ord)] = True
 	// body branch
 	bst := head.Clone()
 	bst.Assume(g)
+	// at the start of an iteration none of the loops nested in this one has run yet
+	iterEnsures := fv.fn.Contr.Get("ensures", lc.ord, 0)
+	if len(iterEnsures) > 0 {
+		for s2, ord2 := range fv.loops {
+			if s2.Pos() > lc.stmt.Pos() && s2.End() <= lc.stmt.End() {
+				bst.ghost[fmt.Sprintf("done%d", ord2)] = False
+			}
+		}
+	}
+	iterStart := bst.Clone()
 	if len(fv.fn.Contr.Get("invariant", lc.ord, 0)) > 0 {
 		fv.obls = append(fv.obls, &Obligation{Func: fv.fn.Key, Class: "V", Kind: "loop-reachable", Site: lc.bodyPos, Pos: fv.pos(lc.bodyPos),
 			Assume: append([]Term(nil), bst.pc...), Goal: False, Desc: "loop body reachable under its invariants (vacuity guard)", consts: fv.consts, Cover: true,
@@ -1395,6 +1407,32 @@ func (fv *FuncVerifier) runLoopR(st *State, env *Env, lc *loopCtx, label string,
 			fv.applyHints(o.st, lc)
 			for _, iv := range fv.loopInvariants(o.st, lc) {
 				fv.obligeNamedAt(o.st, "F", fmt.Sprintf("inv[loop%d,%d].preserved", lc.ord, iv.cl.Ord), iv.t, lc.bodyPos, "loop invariant preserved: "+iv.cl.Text)
+			}
+			// `loop k ensures E`: what ONE complete iteration establishes (entry() = the start of this iteration); E is
+			// read at the end of the body, so it may mention variables the body declares and the ghosts done<j> ("the
+			// nested loop j ran to its normal exit during this iteration")
+			for _, cl := range iterEnsures {
+				endPos := lc.bodyPos
+				switch b := lc.stmt.(type) {
+				case *ast.ForStmt:
+					endPos = b.Body.Rbrace
+				case *ast.RangeStmt:
+					endPos = b.Body.Rbrace
+				}
+				nm := map[string]Term{}
+				for k, v := range lc.names {
+					nm[k] = v
+				}
+				for k, v := range o.st.ghost {
+					if strings.HasPrefix(k, "done") {
+						nm[k] = v
+					}
+				}
+				t := fv.evalClause(o.st, cl, endPos, nm, iterStart)
+				// always recorded (also when it folds to `true`): the baseline must know the clause exists
+				fv.obls = append(fv.obls, &Obligation{Func: fv.fn.Key, Class: "F", Kind: "iter-ensures", Site: lc.bodyPos, Pos: fv.pos(lc.bodyPos),
+					Assume: append([]Term(nil), o.st.pc...), Goal: t, Desc: "every complete iteration establishes: " + cl.Text, consts: fv.consts,
+					Name: fmt.Sprintf("%s#F.iter-ensures[loop%d,%d]", fv.fn.Key, lc.ord, cl.Ord)})
 			}
 			for i, cl := range decs {
 				d1 := fv.evalClause(o.st, cl, lc.bodyPos, lc.names, lc.entry)
